@@ -206,9 +206,43 @@ static void op_c04_sweep(Exec& x, const Json& op, int)
 				if (hb != (int64_t)marked.size()) x.violation("C04", "status-bad-count", when + strf(": summary:has_bad=%lld, content has %zu", (long long)hb, marked.size()), focus);
 				x.probe("c04.scrub_cases");
 			}
+			// the marks do not blind later commands: a check still locates exactly the same data errors, and once the
+			// data is back (here: restored from the harness copy) scrub -p bad verifies the stripes and clears the marks
+			if (!cs1.t.empty()) {
+				CmdSpec ca;
+				ca.cmd = "check";
+				ca.opts = { "-a" };
+				CmdResult rc = x.cmd(ca);
+				std::set<std::string> got2, exp2;
+				for (auto& t : parse_tags(rc.log)) if (t.f.size() >= 4 && t.f[0] == "error") got2.insert("error:" + t.f[1] + ":" + t.f[2] + ":" + t.f[3]);
+				for (auto& e : expect) if (starts_with(e, "error:")) exp2.insert(e);
+				if (got2 != exp2) {
+					std::string d;
+					for (auto& e : got2) if (!exp2.count(e)) d += "+" + e + " ";
+					for (auto& e : exp2) if (!got2.count(e)) d += "-" + e + " ";
+					x.violation("C04", "later-check-mislocates", when + ": check -a after the scrub: " + d.substr(0, 300), focus);
+				}
+				// put every damaged file and parity block back and let scrub -p bad re-verify
+				for (auto i : cs1.t) {
+					if (i >= targets.size()) continue;
+					const Target& t = targets[i];
+					auto it = pre.find(t.rel);
+					if (it != pre.end()) x.sb.corrupt_bytes(t.rel, t.off, it->second.data.substr((size_t)t.off, (size_t)t.len));
+				}
+				CmdSpec sb2;
+				sb2.cmd = "scrub";
+				sb2.opts = { "-p", "bad" };
+				CmdResult rb = x.cmd(sb2);
+				std::vector<LoadedContent> a2 = load_contents(x.sb);
+				const LoadedContent* l2 = first_good(a2);
+				unsigned still = 0;
+				if (l2) for (uint32_t p = 0; p < l2->c.blockmax; ++p) if (l2->c.info[p].present && l2->c.info[p].bad) ++still;
+				if (rb.exit_code != 0 || still) x.violation("C04", "bad-mark-never-clears", when + strf(": after the damage was undone scrub -p bad exits %d and %u stripes stay bad", rb.exit_code, still), focus);
+				x.probe("c04.scrub_followups");
+			}
 			// nothing but the content files changed
 			Snap now = x.sb.snapshot_all();
-			for (auto& kv : damaged) {
+			for (auto& kv : (cs1.t.empty() ? damaged : pre)) {
 				bool is_content = false;
 				for (auto& cf : x.sb.cfg.content) if (kv.first == cf || starts_with(kv.first, cf + ".")) is_content = true;
 				if (is_content) continue;
@@ -237,6 +271,8 @@ static RunPlan gen_silent(uint64_t seed, int tier)
 {
 	Rng rng(seed);
 	RunPlan p = gen_history_to_synced(rng, "silent", seed, tier, 5);
+	// sometimes the array was just converted to the other hash kind: every stripe still carries old-kind hashes
+	if (rng.chance(1, 5)) p.ops.push_back(Json::obj().set("k", "rehash").set("seed", rng.next() >> 1));
 	p.ops.push_back(Json::obj().set("k", "c04_sweep").set("seed", rng.next() >> 1).set("limit", tier ? 0 : 14));
 	return p;
 }
